@@ -11,6 +11,7 @@ from vt.util import V, case_rng, rng_for
 PROPERTY = "C04"
 TITLE = "Signals aligned, independent copies, pointwise combination"
 NEEDS_ICONTRACT = True
+TECHNIQUE = ("runtime monitoring: operation histories on real Signal objects checked against an alias graph and a pointwise reference model; icontract post-condition on Signal.__init__ (also evaluated while the repository's own tests run)")
 ANCHORS = ["pyrex.signals:Signal.__add__", "pyrex.signals:EmptySignal.__add__", "pyrex.signals:FunctionSignal.__add__",
            "pyrex.signals:Signal.__radd__", "pyrex.signals:Signal.with_times", "pyrex.signals:EmptySignal.with_times",
            "pyrex.signals:FunctionSignal.with_times", "pyrex.signals:Signal.copy", "pyrex.signals:EmptySignal.copy",
@@ -56,6 +57,7 @@ def gen_cases(tier, seed):
         off = float(rng.uniform(-5, 5) * dt) if cls != "huge-offset" else float(rng.choice([-1, 1]) * 10 ** rng.uniform(3, 9) * dt)
         out.append({"cls": cls, "N": N, "dt": dt, "offset": off, "nops": int(rng.integers(1, 13)),
                     "types": ["undefined", "voltage", "field", "power"] if cls == "mixed-types" else ["undefined", "voltage"]})
+    out.append({"cls": "repo-suite", "files": ['tests/test_signals.py', 'tests/test_askaryan.py', 'tests/test_antenna.py', 'tests/test_ray_tracing.py']})      # the repository's own tests as one more workload for the contract
     return out
 
 
@@ -63,6 +65,18 @@ FUNCS = {"sin": np.sin, "cos": np.cos, "gauss": lambda t: np.exp(-t * t), "lin":
 
 
 def run_case(case):
+    if case["cls"] == "repo-suite":
+        from vt import suite
+        v_ = V()
+        rep = suite.run("c04", case["files"])
+        evals = sum(sum(x for x in d.values() if isinstance(x, int)) for d in rep.get("contract_evaluations", {}).values())
+        v_.events += evals
+        for f_ in rep.get("contract_failures", []):
+            v_.check(False, "contract holds while the repository's own tests run", test=f_["test"], message=f_["message"])
+        sample_ = {"workload": "repository test files under the contract", "files": rep.get("files"), "tests_collected": rep.get("collected"), "contract_evaluations": evals, "pytest": rep.get("tail")}
+        if rep.get("returncode") != 0 and not rep.get("contract_failures"):
+            return v_.result(decided=False, nontrivial=False, sample=sample_, skip="repository tests did not pass under the plugin")
+        return v_.result(decided=True, nontrivial=evals >= 50, sample=sample_)
     import pyrex.signals as sg
     Signal, EmptySignal, FunctionSignal = sg.Signal, sg.EmptySignal, sg.FunctionSignal
     v = V()
